@@ -12,6 +12,7 @@ import (
 	"sort"
 	"strconv"
 	"strings"
+	"time"
 
 	"golang.org/x/tools/go/ssa"
 
@@ -31,7 +32,7 @@ var interpretable = []string{
 	"github.com/cenkalti/backoff",
 	"strings", "strconv", "sort", "slices", "maps", "unicode", "unicode/utf8", "bytes",
 	"math", "math/bits", "errors", "cmp", "iter", "path", "internal/bytealg", "internal/stringslite",
-	"internal/itoa", "internal/byteorder", "encoding/hex", "container/list", "context",
+	"internal/itoa", "internal/strconv", "internal/byteorder", "encoding/hex", "container/list", "context",
 	"github.com/pingcap/errors", "github.com/go-zookeeper/zk", "github.com/go-sql-driver/mysql", "database/sql", "encoding/binary",
 }
 
@@ -62,6 +63,10 @@ func (sh *Shared) initForbidden(path string) bool {
 
 // vetCall rejects calls into packages that are neither interpretable nor intrinsic.
 func (sh *Shared) vetCall(fn *ssa.Function) string {
+	// pure integer/float arithmetic on time.Duration
+	if n := fn.String(); strings.HasPrefix(n, "(time.Duration).") || n == "time.fmtFrac" || n == "time.fmtInt" || n == "time.lessThanHalf" {
+		return ""
+	}
 	pkg := fn.Pkg
 	if pkg == nil {
 		if fn.Object() != nil && fn.Object().Pkg() != nil {
@@ -329,7 +334,12 @@ func (sh *Shared) buildIntrinsics() {
 	m["(time.Time).UnixNano"] = func(fr *frame, args []value) value { return timeNS(args[0]) }
 	m["(time.Time).String"] = func(fr *frame, args []value) value { return "<time>" }
 	m["(time.Time).Format"] = func(fr *frame, args []value) value { return "<time>" }
-	m["(time.Duration).String"] = func(fr *frame, args []value) value { return "<duration>" }
+	m["(time.Duration).String"] = func(fr *frame, args []value) value {
+		if d, ok := args[0].(int64); ok {
+			return time.Duration(d).String()
+		}
+		return "<duration>"
+	}
 	// tickers are created by verifnd.NewTicker (call-site rewrite): plain channels fed by the harness
 	m["(*time.Ticker).Stop"] = func(fr *frame, args []value) value { return nil }
 	m["(time.Duration).Seconds"] = func(fr *frame, args []value) value {
@@ -802,12 +812,12 @@ func (fr *frame) renderD(a value, verb byte, directive string, strict bool) stri
 		return "<token>"
 	case bool, int, int8, int16, int32, int64, uint, uint8, uint16, uint32, uint64, float32, float64:
 		if verb == 'T' {
-			return it.t.String()
+			return types.TypeString(it.t, func(p *types.Package) string { return p.Name() })
 		}
 		return fmt.Sprintf(directive, x)
 	}
 	if verb == 'T' {
-		return it.t.String()
+		return types.TypeString(it.t, func(p *types.Package) string { return p.Name() })
 	}
 	if hasSym(it.v) && strict {
 		panic(engineError{"formatting a value with symbolic parts at " + fr.pos()})
